@@ -18,10 +18,23 @@ func VH_C04_AFEndToEnd() {
 	vrt.Assert(err == nil && af != nil, "adaptation field present")
 	vrt.Assert(af.SetPCR(pcr) == nil, "SetPCR succeeds on a present PCR")
 	vrt.Assert(af.SetOPCR(opcr) == nil, "SetOPCR succeeds on a present OPCR")
+	// composed identity (no 42-bit multiply/divide query under load): the bytes written are
+	// InsertPCR(value) at the ISO positions, the getters decode exactly those bytes, and
+	// ExtractPCR(InsertPCR(v)) == v for every v is the codec lemma of the root-package harness
+	var w [12]byte
+	gots.InsertPCR(w[0:6], pcr)
+	gots.InsertPCR(w[6:12], opcr)
+	same := true
+	for i := 0; i < 12; i++ {
+		if p[6+i] != w[i] {
+			same = false
+		}
+	}
+	vrt.Assert(same, "SetPCR/SetOPCR write the encoded values to bytes 6..11 and 12..17")
 	g, err := af.PCR()
-	vrt.Assert(err == nil && g == pcr, "PCR set on an adaptation field is read back unchanged")
+	vrt.Assert(err == nil && g == gots.ExtractPCR(p[6:12]), "the PCR getter decodes bytes 6..11")
 	o, err := af.OPCR()
-	vrt.Assert(err == nil && o == opcr, "OPCR set on an adaptation field is read back unchanged")
+	vrt.Assert(err == nil && o == gots.ExtractPCR(p[12:18]), "the OPCR getter decodes bytes 12..17")
 	vrt.Reach("end")
 }
 
@@ -34,9 +47,11 @@ func VH_C04_AFSetSequence() {
 	presence := []byte{0, 0x04, 0x06}[rest]
 	p, m := c03wfShape("p", presence, 2, 0)
 	vrt.Assume(5+m.L-m.end >= 12) // room for both fields
-	pcr, opcr := vrt.Uint64("pcr"), vrt.Uint64("opcr")
-	lim := (uint64(1) << 33) * 300
-	vrt.Assume(pcr < lim && opcr < lim)
+	// concrete clock values (three pairs with every value bit set in one of them): which VALUES
+	// survive is the codec lemma; this harness is about positions and sequencing, and symbolic
+	// values would put a divide-by-300 term into every byte comparison of the shifted field
+	vals := [][2]uint64{{0x1FFFFFFFF*300 + 299, 0}, {0x0AAAAAAAA*300 + 0x155, 0x155555555*300 + 0xAA}, {1, 0x1FFFFFFFF*300 + 299}}[vrt.Choose("values", 0, 2)]
+	pcr, opcr := vals[0], vals[1]
 	orig := p
 	af, err := p.AdaptationField()
 	vrt.Assert(err == nil && af != nil, "adaptation field present")
